@@ -24,7 +24,7 @@ use fuel_core_upgradable_executor::instance::Instance;
 use fuel_core_wasm_executor::utils::{InputDeserializationType, ReturnType, WasmDeserializationBlockTypes};
 use std::{
     collections::BTreeMap,
-    sync::{Arc, Mutex},
+    sync::Mutex,
 };
 use vcommon::T;
 use wasm_encoder as we;
